@@ -1,3 +1,4 @@
+import GoHeader.Store.TailRace
 import GoHeader.Oracle.Common
 import GoHeader.Store.Conc
 import GoHeader.Oracle.Store
@@ -24,6 +25,25 @@ def evalConc (prop : String) (ins outs : List String) : Verdict :=
     | some "found" => .ok "gated"
     | some r => .prop "c12_no_lost_wakeup" s!"gated replay: {" ".intercalate ins} => {r}"
     | none => .bad "gated"
+  | some "tailrace" =>
+    match kvNat? ins "t0", kvNat? ins "to", kvNat? ins "n", kv? outs "delete", kv? outs "sync", kvNat? outs "head", kvNat? outs "tail",
+          (kv? outs "stored").bind natList? with
+    | some t0, some to, some n, some "ok", some "ok", some hd, some tl, some stored =>
+      -- the harness' interleaving on the model: the deleter reaches the middle, the flush loop takes the Append up to
+      -- its look-up below the tail, the deleter finishes (setTail), the flush loop finishes
+      let mid := (t0 + to) / 2
+      let sched := List.replicate (mid - t0) false ++ [true, true, true] ++ List.replicate (to - mid + 1) false ++ [true, true]
+      let m := GoHeader.Store.TailRace.run ⟨t0, to, n⟩ sched
+      let want := (List.range (n + 2 - to)).map (· + to)
+      if m.f != .done || m.d != .done then .bad "tailrace: model schedule does not finish" else
+      -- property predicate (theorem c17_tail_delete_racing_append_gap_free): exactly [to .. n+1], Tail = to, Head = n+1
+      if !(hd == n + 1 && tl == to && stored == want) then
+        .prop "c17_tail_delete_racing_append_gap_free" s!"head={hd} tail={tl} stored={stored} want [{to}..{n+1}]"
+      else if !(m.head == hd && m.tail == tl && m.stored (n + 1) == stored) then
+        .corr "tailrace" s!"head={m.head} tail={m.tail} stored={m.stored (n+1)}" s!"head={hd} tail={tl} stored={stored}"
+      else .ok "tailrace"
+    | _, _, _, some d, some sy, _, _, _ => .prop "c17_tail_delete_racing_append_gap_free" s!"delete={d} sync={sy}"
+    | _, _, _, _, _, _, _, _ => .bad "tailrace"
   | some "syncdrain" =>
     match kv? outs "sync", kvNat? outs "head", kvNat? outs "readable", kvNat? outs "want" with
     | some "ok", some hd, some rd, some want =>
